@@ -287,12 +287,16 @@ impl Counts {
             self.num_send_streams
         );
 
+        // The stream left the reset expiration queue during this transition:
+        // it no longer counts as a reset stream, whether it is closed yet or not
+        // (its RST_STREAM may still be waiting to be written).
+        if is_reset_counted && !stream.is_pending_reset_expiration() {
+            self.dec_num_reset_streams();
+        }
+
         if stream.is_closed() {
             if !stream.is_pending_reset_expiration() {
                 stream.unlink();
-                if is_reset_counted {
-                    self.dec_num_reset_streams();
-                }
             }
 
             if !stream.state.is_scheduled_reset() && stream.is_counted {
